@@ -886,3 +886,64 @@ func loopEarlyExitsOfKind(body *ast.BlockStmt, tok token.Token) []ast.Stmt {
 	}
 	return out
 }
+
+// elemLoop describes a loop that visits the elements of a list one by one, however it is written:
+// `for _, v := range L`, `for i := range L { v := L[i] … }`, `for i := 0; i < len(L); i++ { v := L[i] … }`.
+type elemLoop struct {
+	stmt ast.Stmt       // the for / range statement
+	body *ast.BlockStmt // its body
+	list ast.Expr       // L
+	elem types.Object   // v (nil when the body uses L[i] without naming it)
+	idx  types.Object   // i (nil for the value form)
+}
+
+// elemLoopOf recognises n as an element loop of fn.
+func elemLoopOf(fn *FuncNode, n ast.Node) *elemLoop {
+	named := func(body *ast.BlockStmt, list ast.Expr, idx types.Object) types.Object {
+		for _, st := range body.List {
+			as, ok := st.(*ast.AssignStmt)
+			if !ok || as.Tok != token.DEFINE || len(as.Lhs) != 1 || len(as.Rhs) != 1 {
+				continue
+			}
+			e := unparen(as.Rhs[0])
+			if u, ok := e.(*ast.UnaryExpr); ok && u.Op == token.AND {
+				e = unparen(u.X)
+			}
+			if ix, ok := e.(*ast.IndexExpr); ok && fn.objOf(ix.Index) == idx && exprStr(unparen(ix.X)) == exprStr(unparen(list)) {
+				return fn.objOf(as.Lhs[0])
+			}
+		}
+		return nil
+	}
+	switch l := n.(type) {
+	case *ast.RangeStmt:
+		if id, ok := l.Value.(*ast.Ident); ok && id.Name != "_" {
+			return &elemLoop{stmt: l, body: l.Body, list: l.X, elem: fn.objOf(id)}
+		}
+		if id, ok := l.Key.(*ast.Ident); ok && l.Value == nil && id.Name != "_" {
+			if _, isMap := fn.typeOf(l.X).Underlying().(*types.Map); isMap {
+				return nil
+			}
+			idx := fn.objOf(id)
+			return &elemLoop{stmt: l, body: l.Body, list: l.X, idx: idx, elem: named(l.Body, l.X, idx)}
+		}
+	case *ast.ForStmt:
+		init, ok1 := l.Init.(*ast.AssignStmt)
+		post, ok2 := l.Post.(*ast.IncDecStmt)
+		if !ok1 || !ok2 || l.Cond == nil || len(init.Lhs) != 1 || len(init.Rhs) != 1 || post.Tok != token.INC {
+			return nil
+		}
+		be, ok := unparen(l.Cond).(*ast.BinaryExpr)
+		if !ok || be.Op != token.LSS {
+			return nil
+		}
+		iv := fn.objOf(init.Lhs[0])
+		k, isC := fn.constInt(init.Rhs[0])
+		lc, isLen := unparen(be.Y).(*ast.CallExpr)
+		if iv == nil || !isC || k != 0 || fn.objOf(post.X) != iv || fn.objOf(be.X) != iv || !isLen || !isBuiltinCall(fn, lc, "len") || len(lc.Args) != 1 {
+			return nil
+		}
+		return &elemLoop{stmt: l, body: l.Body, list: lc.Args[0], idx: iv, elem: named(l.Body, lc.Args[0], iv)}
+	}
+	return nil
+}
